@@ -93,7 +93,18 @@ fn noise_run(rng: &mut Rng, evs: &mut Vec<Value>) {
 
 fn mixed_run(rng: &mut Rng, evs: &mut Vec<Value>) {
     let nlpf = if rng.chance(0.2) { 1 } else { 1 + 2 * rng.below(16) }; // order 1 (a single tap) is a case of its own
-    let h8: Vec<i64> = (0..nlpf).map(|_| rng.range(-8, 8)).collect();
+    let mut h8: Vec<i64> = (0..nlpf).map(|_| rng.range(-8, 8)).collect();
+    // particular shapes: a centre tap of exactly zero (the delta of (delta - h) then stands alone), the all-zero filter,
+    // zero outer taps
+    match rng.below(10) {
+        0 | 1 => h8[(nlpf - 1) / 2] = 0,
+        2 => h8.iter_mut().for_each(|x| *x = 0),
+        3 => {
+            h8[0] = 0;
+            h8[nlpf - 1] = 0;
+        }
+        _ => {}
+    }
     let lpf: Vec<f64> = h8.iter().map(|h| *h as f64 / 8.0).collect();
     let rate = 16000usize;
     let fperiod = 20 + rng.below(40);
